@@ -111,7 +111,14 @@ func main() {
 	case "noregister":
 		time.Sleep(time.Hour)
 	}
-	st, err := stub.New(p, stub.WithOnClose(func() { os.Exit(0) }))
+	opts := []stub.Option{stub.WithOnClose(func() { os.Exit(0) })}
+	if c.Behaviour == "liar" {
+		// registers under an identity of its own choosing (the environment was recorded above)
+		os.Unsetenv("NRI_PLUGIN_NAME")
+		os.Unsetenv("NRI_PLUGIN_IDX")
+		opts = append(opts, stub.WithPluginName("liar"), stub.WithPluginIdx("90"))
+	}
+	st, err := stub.New(p, opts...)
 	if err != nil {
 		fmt.Fprintln(os.Stderr, "probe:", err)
 		os.Exit(2)
